@@ -2,6 +2,6 @@ import pytest
 
 @pytest.fixture
 def ed0_fix_h():
-    """DOC15"""
-    return 15
+    """DOC6"""
+    return 6
 
